@@ -140,6 +140,8 @@ type world struct {
 	methods map[string]*ast.FuncDecl // "Recv.Name"
 	gvars   map[string]ast.Expr      // package-level var with an initialiser
 	gtuples map[string]*tupleVal     // memo (nil entry = undetermined)
+	structs map[string][]string      // struct type -> field names in order
+	gconsts map[string]string        // package-level string constants
 	gdone   map[string]bool
 }
 
@@ -253,6 +255,9 @@ func (w *world) components(e ast.Expr, sc *scope, depth int) ([]tfield, bool) {
 		if rhs, ok := w.gvars[v.Name]; ok {
 			return w.components(rhs, nil, depth+1)
 		}
+		if sc != nil {
+			return w.mappedComponents(v.Name, sc, depth+1)
+		}
 		return nil, false
 	case *ast.CompositeLit:
 		var fields []tfield
@@ -272,11 +277,10 @@ func (w *world) components(e ast.Expr, sc *scope, depth int) ([]tfield, bool) {
 				if !ok {
 					return nil, false
 				}
-				lit, ok := kv.Value.(*ast.BasicLit)
-				if !ok || lit.Kind != token.STRING {
+				s, ok := w.strVal(kv.Value)
+				if !ok {
 					return nil, false // nested components etc.
 				}
-				s, _ := strconv.Unquote(lit.Value)
 				switch key.Name {
 				case "Name":
 					tf.name = s
@@ -296,6 +300,159 @@ func (w *world) components(e ast.Expr, sc *scope, depth int) ([]tfield, bool) {
 		return fields, true
 	}
 	return nil, false
+}
+
+// a string literal or a package-level string constant
+func (w *world) strVal(e ast.Expr) (string, bool) {
+	switch v := paren(e).(type) {
+	case *ast.BasicLit:
+		if v.Kind == token.STRING {
+			s, err := strconv.Unquote(v.Value)
+			return s, err == nil
+		}
+	case *ast.Ident:
+		s, ok := w.gconsts[v.Name]
+		return s, ok
+	}
+	return "", false
+}
+
+// the slice literal an expression denotes (through parameters, single-assignment locals, package variables)
+func (w *world) sliceLit(e ast.Expr, sc *scope, depth int) (*ast.CompositeLit, bool) {
+	if depth > 10 {
+		return nil, false
+	}
+	switch v := paren(e).(type) {
+	case *ast.CompositeLit:
+		return v, true
+	case *ast.Ident:
+		if sc != nil {
+			if b, ok := sc.params[v.Name]; ok {
+				return w.sliceLit(b.e, b.sc, depth+1)
+			}
+			if rhs, ok := sc.locals[v.Name]; ok {
+				return w.sliceLit(rhs, sc, depth+1)
+			}
+		}
+		if rhs, ok := w.gvars[v.Name]; ok {
+			return w.sliceLit(rhs, nil, depth+1)
+		}
+	}
+	return nil, false
+}
+
+// components built by a mapping loop:
+//
+//	for _, f := range SRC { name = append(name, abi.ArgumentMarshaling{Name: f.a, Type: f.b}) }
+//
+// with SRC a slice literal of a struct type of this package whose fields a and b hold string literals / constants
+func (w *world) mappedComponents(name string, sc *scope, depth int) ([]tfield, bool) {
+	var res []tfield
+	found, good := false, false
+	ast.Inspect(sc.fd.Body, func(n ast.Node) bool {
+		rs, ok := n.(*ast.RangeStmt)
+		if !ok || found {
+			return !found
+		}
+		elem, ok := rs.Value.(*ast.Ident)
+		if !ok {
+			return true
+		}
+		var nameField, typeField string
+		ast.Inspect(rs.Body, func(m ast.Node) bool {
+			as, ok := m.(*ast.AssignStmt)
+			if !ok || len(as.Lhs) != 1 || len(as.Rhs) != 1 {
+				return true
+			}
+			l, ok := as.Lhs[0].(*ast.Ident)
+			call, ok2 := as.Rhs[0].(*ast.CallExpr)
+			if !ok || !ok2 || l.Name != name || len(call.Args) != 2 {
+				return true
+			}
+			if f, ok := call.Fun.(*ast.Ident); !ok || f.Name != "append" {
+				return true
+			}
+			cl, ok := call.Args[1].(*ast.CompositeLit)
+			if !ok || typeString(cl.Type) != "abi.ArgumentMarshaling" {
+				return true
+			}
+			for _, el := range cl.Elts {
+				kv, ok := el.(*ast.KeyValueExpr)
+				if !ok {
+					return true
+				}
+				k, ok := kv.Key.(*ast.Ident)
+				se, ok2 := kv.Value.(*ast.SelectorExpr)
+				if !ok || !ok2 {
+					nameField, typeField = "", ""
+					return true
+				}
+				if x, ok := se.X.(*ast.Ident); !ok || x.Name != elem.Name {
+					nameField, typeField = "", ""
+					return true
+				}
+				switch k.Name {
+				case "Name":
+					nameField = se.Sel.Name
+				case "Type":
+					typeField = se.Sel.Name
+				default:
+					nameField, typeField = "", ""
+					return true
+				}
+			}
+			return true
+		})
+		if nameField == "" || typeField == "" {
+			return true
+		}
+		found = true
+		lit, ok := w.sliceLit(rs.X, sc, depth+1)
+		if !ok {
+			return false
+		}
+		at, ok := lit.Type.(*ast.ArrayType)
+		if !ok {
+			return false
+		}
+		order, ok := w.structs[typeString(at.Elt)]
+		if !ok {
+			return false
+		}
+		seen := map[string]bool{}
+		for _, el := range lit.Elts {
+			c, ok := el.(*ast.CompositeLit)
+			if !ok {
+				return false
+			}
+			vals := map[string]ast.Expr{}
+			for i, x := range c.Elts {
+				if kv, ok := x.(*ast.KeyValueExpr); ok {
+					if k, ok := kv.Key.(*ast.Ident); ok {
+						vals[k.Name] = kv.Value
+					}
+				} else if i < len(order) {
+					vals[order[i]] = x
+				}
+			}
+			var tf tfield
+			var ok1, ok2 bool
+			if vals[nameField] != nil {
+				tf.name, ok1 = w.strVal(vals[nameField])
+			}
+			if vals[typeField] != nil {
+				tf.ty, ok2 = w.strVal(vals[typeField])
+			}
+			if _, okT := coqTy(tf.ty); !ok1 || !ok2 || !okT || !nameRe.MatchString(tf.name) || seen[tf.name] {
+				return false
+			}
+			seen[tf.name] = true
+			res = append(res, tf)
+		}
+		good = true
+		return false
+	})
+	return res, found && good
 }
 
 func isPkgCall(call *ast.CallExpr, pkg, fn string) bool {
@@ -580,7 +737,7 @@ func main() {
 		die("%v", err)
 	}
 	w := &world{fset: fset, funcs: map[string]*ast.FuncDecl{}, methods: map[string]*ast.FuncDecl{}, gvars: map[string]ast.Expr{},
-		gtuples: map[string]*tupleVal{}, gdone: map[string]bool{}}
+		gtuples: map[string]*tupleVal{}, gdone: map[string]bool{}, structs: map[string][]string{}, gconsts: map[string]string{}}
 	var typeVars []string // package variables declared with type abi.Type (in source order)
 	for _, e := range ents {
 		n := e.Name()
@@ -604,6 +761,34 @@ func main() {
 					w.funcs[d.Name.Name] = d
 				}
 			case *ast.GenDecl:
+				if d.Tok == token.TYPE {
+					for _, sp := range d.Specs {
+						ts := sp.(*ast.TypeSpec)
+						if st, ok := ts.Type.(*ast.StructType); ok {
+							var names []string
+							for _, fl := range st.Fields.List {
+								for _, nm := range fl.Names {
+									names = append(names, nm.Name)
+								}
+							}
+							w.structs[ts.Name.Name] = names
+						}
+					}
+				}
+				if d.Tok == token.CONST {
+					for _, sp := range d.Specs {
+						vs := sp.(*ast.ValueSpec)
+						for i, id := range vs.Names {
+							if i < len(vs.Values) {
+								if lit, ok := vs.Values[i].(*ast.BasicLit); ok && lit.Kind == token.STRING {
+									if sv, err := strconv.Unquote(lit.Value); err == nil {
+										w.gconsts[id.Name] = sv
+									}
+								}
+							}
+						}
+					}
+				}
 				if d.Tok != token.VAR {
 					continue
 				}
